@@ -47,6 +47,8 @@ def streams(rng, tier):
         if q and k >= 4: break
         for c in (cps if k < 2 else range(0, 0x3100)):      # thorough: the first two templates over every code point
             out.append(Case("sweep-codepoint", "v.parse", [tpl.replace("%s", chr(c))]))
+    for tpl in (["1.%s"] if q else ["1.%s", "%s", "1.0+%s", "1.post%s", "%s!1"]):       # finding D10: beyond int()'s digit limit (the model takes seconds for each)
+        out.append(Case("digit-limit", "v.parse", [tpl % ("9" * 4301)]))
     for _ in range(600 if q else 12000):
         v = gen.rand_v_wide(rng); sv = gen.spell_wide(rng, v)
         if rng.random() < 0.5: sv = gen.mutate(rng, sv, gen.MUT_CH + gen.WS_ALL + ["A", "Z", "_", "e", "(", ")"])
@@ -68,6 +70,13 @@ def streams(rng, tier):
             if rng.random() < 0.5: v = gen.mutate(rng, v)
             out.append(Case("gen-version", "v.parse", [v]))
     return out
+
+def match_d10_language(case, impl, model):
+    """D10: a component of more than 4300 digits is in the language (the model accepts) but Version() rejects it: int() has a digit limit."""
+    import re
+    return (case.cmd == "v.parse" and re.search(r"[0-9]{4301,}", case.args[0]) is not None and impl == "E"
+            and isinstance(model, str) and model.startswith("OK"))
+
 
 def nontrivial(c, i):
     return c.kind == "law" or (i != "E" and not i.startswith("!"))
